@@ -58,6 +58,7 @@ class Counter(object):
 
     def __init__(self, walker):
         self.calls = []
+        self.setwork = 0
         self.walker = walker
         for nt, fn in list(walker.functions.items()):
             walker.functions[nt] = self._wrap(fn)
@@ -75,7 +76,11 @@ class Counter(object):
 
         def w(formula, *a, **k):
             calls.append(formula)
-            return fn(formula, *a, **k)
+            r = fn(formula, *a, **k)
+            # the cost of a callback that builds a collection is at least the size of that collection
+            if isinstance(r, (frozenset, set, list, tuple, dict)):
+                self.setwork += len(r)
+            return r
         return w
 
 
@@ -252,7 +257,7 @@ def run(ck):
                 distinct = len(set(cnt.calls))
                 evs.append({"id": eid[0], "kind": "scale", "op": wname, "nodes": len(order), "callbacks": len(cnt.calls),
                             "K": 2, "slack": 2, "res": res if distinct == len(cnt.calls) else "node_visited_twice",
-                            "exp": len(cnt.exps), "edges": sum(len(k) for k in kids)})
+                            "exp": len(cnt.exps), "edges": sum(len(k) for k in kids), "setwork": 0})
                 eid[0] += 1
                 ck.count()
         if name in ("int", "real_times"):
@@ -271,9 +276,9 @@ def run(ck):
     depth_diamond = 60
     old_limit = sys.getrecursionlimit()
 
-    def scale_event(op, nodes, callbacks, res, K=1, slack=8, exp=0, edges=0):
+    def scale_event(op, nodes, callbacks, res, K=1, slack=8, exp=0, edges=0, setwork=0):
         evs.append({"id": eid[0], "kind": "scale", "op": op, "nodes": nodes, "callbacks": callbacks, "K": K, "slack": slack, "res": res,
-                    "exp": exp, "edges": edges})
+                    "exp": exp, "edges": edges, "setwork": setwork})
         eid[0] += 1
         ck.count()
         ck.nontrivial(("scale", op))
@@ -290,7 +295,8 @@ def run(ck):
             def build():
                 cur = leaf(0)
                 if kind == "chain":
-                    for _ in range(depth_chain if not quick else 6000):
+                    # (one family keeps the full depth in the quick tier too: quadratic work only shows there)
+                    for _ in range(depth_chain if (not quick or fam_name == "int") else 6000):
                         cur = un(cur)
                 else:
                     for _ in range(depth_diamond):
@@ -312,15 +318,19 @@ def run(ck):
                     ("is_qf", env.qfo, lambda: env.qfo.is_qf(f), 1),
                     ("get_logic", env.theoryo, lambda: get_logic(f, env), 1),
                     ("get_types", env.typeso, lambda: env.typeso.get_types(f), 1),
+                    ("size_tree", env.sizeo, lambda: env.sizeo.get_size(f, 0), 1),
                     ("size_dag", env.sizeo, lambda: env.sizeo.get_size(f, 1), 1),
-                    ("size_depth", env.sizeo, lambda: env.sizeo.get_size(f, 3), 1)]
+                    ("size_leaves", env.sizeo, lambda: env.sizeo.get_size(f, 2), 1),
+                    ("size_depth", env.sizeo, lambda: env.sizeo.get_size(f, 3), 1),
+                    ("size_symbols", env.sizeo, lambda: env.sizeo.get_size(f, 4), 1),
+                    ("size_bool_dag", env.sizeo, lambda: env.sizeo.get_size(f, 5), 1)]
             if f.get_type().is_bool_type():
                 runs += [("atoms", env.ao, lambda: f.get_atoms(), 1)]
             for opn, walker, fn, K in runs:
                 cnt = Counter(walker)
                 res = timed(fn)
                 scale_event("%s:%s" % (opn, label), n, len(cnt.calls) if res == "ok" else 0, res, K=K, slack=8,
-                            exp=len(cnt.exps) if res == "ok" else 0, edges=n_edges)
+                            exp=len(cnt.exps) if res == "ok" else 0, edges=n_edges, setwork=cnt.setwork if res == "ok" else 0)
             if not f.get_type().is_bool_type():
                 # the same DAG below a theory atom, through the Boolean-level walkers
                 g = env.formula_manager.Equals(f, leaf(1))
